@@ -433,6 +433,17 @@ class WEval:
             if pc.split_at_value(r, 0):
                 return r
             return ("aff", 0, 0, x[3])
+        if nm == "saturating_add" and len(mc["args"]) == 1:
+            x = self.ev(recv, env, pc, st)
+            y = self.ev(mc["args"][0], env, pc, st)
+            ty = path.split("<impl ")[1].split(">")[0] if "<impl " in path else x[3]
+            if not (is_aff(x) and is_aff(y)) or ty not in INT_TYPES:
+                raise Unk("saturating_add operands")
+            r = ("aff", x[1] + y[1], x[2] + y[2], ty)
+            hi = int_range(ty)[1]
+            if pc.split_at_value(r, hi + 1):
+                return ("aff", 0, hi, ty)
+            return r
         if nm in ("to_be_bytes", "to_le_bytes"):
             x = self.ev(recv, env, pc, st)
             ty = path.split("<impl ")[1].split(">")[0] if "<impl " in path else None
@@ -446,6 +457,8 @@ class WEval:
             x = self.ev(recv, env, pc, st)
             if x[0] == "vecbuf":
                 return x[2][0]
+            if x[0] == "srphdr":
+                return ("aff", 0, x[2], "usize")
             if x[0] == "walias":
                 t, e2 = x[1], x[2]
                 return e2[t][2][0]
@@ -478,6 +491,13 @@ class WEval:
             a = self.ev(mc["args"][0], env, pc, st)
             if w is not None and a[0] == "vecbuf":
                 self.add_written(w, env, a[2][0], st)
+                return ("unit",)
+            if w is not None and a[0] == "srphdr":
+                # the encrypted header returned by wow_srp is appended to the (empty) staging buffer
+                sink = self.add_written(w, env, ("aff", 0, a[2], "usize"), st)
+                if st.header_len is not None or (sink[2][0][1], sink[2][0][2]) != (0, a[2]):
+                    raise Unk("encrypted header appended at a non-zero offset / second header")
+                st.header_len, st.header_bytes, st.sf, st.header_sink = a[2], "srp", a[1], sink
                 return ("unit",)
             raise Unk("extend_from_slice operands")
         if nm == "write_into_vec":
